@@ -12,3 +12,11 @@ package fs
 //@   ensures [C16] every_location_attempted: called("Remove") == old(called("Remove")) + len(locations)
 //@   loop 1
 //@     invariant [C16] one_attempt_each: called("Remove") == old(called("Remove")) + #idx && 0 <= #idx && #idx <= len(locations)
+
+// C16: an upload that fails after its file was created - the record cannot be started, the copy breaks off - leaves no
+// bytes behind: the caller deletes the record of a failed upload, so nothing would ever lead garbage collection to them.
+//@ func (fh *fshandler) Upload(fdef *types.FileDef, file io.ReadSeeker) (url string, size int64, err error)
+//@   requires [C16] fh != nil && fdef != nil
+//@   modifies *
+//@   ensures [C16] failed_upload_leaves_no_file: err != nil && called("StartUpload") > old(called("StartUpload")) ==> called("Remove") == old(called("Remove")) + 1
+//@   assert at call Remove [C16] own_file: $1 == fdef.Location
